@@ -344,8 +344,8 @@ def kept_history(rig, cfg, steps):
             if run["mode"] != "serial":
                 cnt["pooled"] += 1
                 if sig != ref:
-                    what = ("pooled evaluation of a long-lived cube %s after step %d (%s) although the serial evaluation of the SAME object "
-                            "in the same state %s" % ("raised: " + sig if isinstance(sig, str) else "differs from", si,
+                    what = ("pooled evaluation of a long-lived cube %s after step %d (%s); the serial evaluation of the SAME object "
+                            "in the same state %s" % ("raised: " + sig if isinstance(sig, str) else "differs from the serial one", si,
                                                       st["change"]["class"] if st["change"] else "no change",
                                                       "agrees with a freshly built cube" if ref == fresh else "returns something else"))
                     return {"step": si, "run": run, "what": what}, cnt
